@@ -204,6 +204,10 @@ def gen_companion(rng, x_term, kind):
         return {'$t': [rng.choice([7, 8, 'o']) for _ in range(m)]}
     if kind == 'odd_dict':
         return {'zz1': 1, 'zz2': 'x'}
+    if kind == 'dict_tied_list':
+        # a dict companion (its keys match no level of x) holding a list as long as the top level of x: still one value, broadcast whole
+        n = len(children(x_term)[0])
+        return {'zz1': [rng.choice([51, 52, 'dl']) for _ in range(n)], 'zz2': 5, 'zz3': {'$t': [rng.choice([61, 62]) for _ in range(n)]}}
     if kind == 'overlap_dict':
         # same number of keys as some dict level of x, partially overlapping key set, scalar values => must be broadcast whole
         levels = []
@@ -239,6 +243,8 @@ def gen_lift_case(rng):
         k = rng.choice(['scalar', 'same_shape', 'same_shape', 'top_only', 'odd_list', 'odd_dict', 'overlap_dict', 'overlap_dict', 'near_list', 'odd_tuple'])
         if k == 'top_only' and len(children(x)[0]) in (0, 7):
             k = 'scalar'
+        if kind_of(x) in ('list', 'tuple') and len(children(x)[0]) >= 1 and rng.random() < 0.12:
+            k = 'dict_tied_list'
         if k == 'top_only':
             # top-level-only companions must not accidentally match deeper levels: their elements are scalars, fine
             pass
@@ -301,6 +307,34 @@ def run_helpers(case, ctx):
     if depth_of(case['x']) >= 2:
         ctx.mark_nontrivial(case)
     ctx.cls('helpers')
+
+
+def run_replace_list(case, ctx):
+    """replace() with a LIST of patterns: a companion like any other (matched element by element where its length ties with a list level, broadcast otherwise);
+    at a leaf the patterns are applied one after the other in the order given; the caller's list is not touched"""
+    import pyg_base as pb
+    x = codec.dec(case['x'])
+    old = list(case['old'])
+    new = case['new']
+    keep = list(old)
+
+    def leaf(text, old, new=None):
+        if type(text) is str:
+            for arg in (old if isinstance(old, list) else [old]):
+                while arg in text:
+                    text = text.replace(arg, new or '')
+        return text
+    exp = lift_model(case['x'], x, [keep], {'new': new}, leaf)
+    s0 = snap(x)
+    st, got = ctx.call(pb.replace, x, old, new) if case.get('pos') else ctx.call(pb.replace, x, old=old, new=new)
+    ctx.check('lib_helpers_leaf_oracle', st == 'ok' and exact(got, exp), lambda: 'replace(%r, %r, %r) = %s %r, pattern by pattern in the order given it should be %r' % (case['x'], keep, new, st, got, exp))
+    ctx.check('operands_unchanged', old == keep and snap_same(snap(x), s0), lambda: 'replace reordered / edited the pattern list it was given: %r -> %r' % (keep, old))
+    # the same list object used again
+    st2, got2 = ctx.call(pb.replace, x, old, new)
+    ctx.check('lib_helpers_leaf_oracle', st2 == 'ok' and exact(got2, exp), lambda: 'replace called again with the same pattern list object: %s %r, expected %r' % (st2, got2, exp))
+    ctx.cls('helpers:replace_with_pattern_list')
+    if depth_of(case['x']) >= 2:
+        ctx.mark_nontrivial(case)
 
 
 # ------------------------------------------------------------------ zipper / lens / as_list
@@ -457,6 +491,9 @@ def run_waiter(case, ctx):
 
         async def main():
             structure = build(struct_t)
+            if case.get('alias'):
+                # the same container object is reachable from several places of the structure handed over
+                structure = {'a': structure, 'b': [structure]} if case['alias'] == 'dict' else [structure, (structure, 0)]
             res, _ = await asyncio.gather(waiter(structure), driver())
             return res
         st, got = ctx.call(lambda: loop.run_until_complete(asyncio.wait_for(main(), 5 if case.get('chained') else 20)))
@@ -471,6 +508,9 @@ def run_waiter(case, ctx):
             pass
         loop.close()
     exp = expect(struct_t)
+    if case.get('alias'):
+        exp = {'a': exp, 'b': [expect(struct_t)]} if case['alias'] == 'dict' else [exp, (expect(struct_t), 0)]
+        ctx.cls('waiter:aliased_container')
     if st == 'exc' and isinstance(got, (asyncio.TimeoutError, TimeoutError)) and case.get('chained'):
         ctx.ev('waiter_structure_values')
         ctx.fail('waiter_structure_values', 'waiter(%r) never returned when its awaitables had to complete in the order %s (they only make progress if all of them are run concurrently)' % (struct_t, order))
@@ -501,7 +541,7 @@ def gen_waiter_struct(rng, k):
 
 
 def run_case(case, ctx):
-    return {'lift': run_lift, 'helpers': run_helpers, 'zip': run_zip, 'waiter': run_waiter}[case['kind']](case, ctx)
+    return {'lift': run_lift, 'helpers': run_helpers, 'zip': run_zip, 'waiter': run_waiter, 'replace_list': run_replace_list}[case['kind']](case, ctx)
 
 
 def plan(tier, seed, n):
@@ -521,6 +561,9 @@ def run(spec, ctx):
                 pool = pool + [True, 1.0, False, 0.0, {'$np': ['int64', 4]}, 4.0, 4, {'$np': ['float64', 2.5]}, -0.0, 0.0, True, 1.0]
             leaf = lambda: rng.choice(pool)
             case = {'kind': 'helpers', 'x': gen_shape(rng, 0, leaf, rng.randint(1, 4))}
+            if rng.random() < 0.25:
+                tl = lambda: rng.choice(['a-b::c', 'a.b', 'x - y', 'ab.ab', 'zzz', '', 'a::b--c', 1, None, 'a b.c'])
+                case = {'kind': 'replace_list', 'x': gen_shape(rng, 0, tl, rng.randint(0, 3)), 'old': rng.sample(['-', '::', '.', 'ab', ' ', 'a.b', '--'], rng.randint(2, 3)), 'new': rng.choice([None, '', '_', '+']), 'pos': rng.random() < 0.5}
         else:
             case = gen_zip_case(rng)
         ctx.case(case)
@@ -550,6 +593,8 @@ def run(spec, ctx):
             case = {'kind': 'waiter', 'struct': s, 'order': list(order)}
             if chained_struct is not None:
                 case = {'kind': 'waiter', 'struct': chained_struct, 'order': list(order), 'chained': True}
+            elif i % 3 == 1 and "'coro'" not in repr(s):       # futures, tasks and custom awaitables may be awaited from several places
+                case['alias'] = 'dict' if i % 2 else 'list'
             ctx.case(case)
             ctx.run_case(case, run_case)
             if ctx.full():
